@@ -51,7 +51,7 @@ theorem CS.cap (hC : Lawful C VC WC) {c : Nat} {e : σ} {le : List Nat} (h : CS 
 theorem CS.sd (hC : Lawful C VC WC) {c : Nat} {e : σ} {le : List Nat} (h : CS VC WC c e le)
     (hc : c ≤ TERMINATED) : SDPost VC WC le c True (C.seekDanger c e) := by
   rcases h with ⟨h1, h2⟩ | ⟨t0, h0, _, hW⟩
-  · exact (hC.sdV h1 hc).weaken (fun _ => by rw [hC.doc_eq h1]; exact h2)
+  · exact hC.sdV h1 hc
   · exact hC.sdW hW h0 hc
 
 /-- what one `seek_danger(c)` does to a child list, seen from documents `≥ c` -/
@@ -174,12 +174,46 @@ theorem dangerAll_law (hC : Lawful C VC WC) {c : Nat} (hc : c ≤ TERMINATED) :
         · intro x hx hall
           exact i5 x hx (fun lo hlo => hall lo (List.mem_cons_of_mem _ hlo))
 
+/-- valid and not beyond `d` -/
+def VB (VC : σ → List Nat → Prop) (d : Nat) (e : σ) (le : List Nat) : Prop := VC e le ∧ Spec.doc le ≤ d
+
+theorem all2_found_VB {c : Nat} : ∀ {es : List σ} {los : List (List Nat)},
+    All2 VC es (los.map (Spec.seek c)) → InAll los c → (∀ lo ∈ los, Sorted lo) →
+    All2 (VB VC c) es (los.map (Spec.seek c))
+  | [], [], _, _, _ => All2.nil
+  | _ :: _, [], h, _, _ => by cases h
+  | [], _ :: _, h, _, _ => by cases h
+  | e :: es, lo :: los, h, hin, hs => by
+    cases h with
+    | cons h1 h2 =>
+      refine All2.cons ⟨h1, ?_⟩ (all2_found_VB h2 (fun x hx => hin x (List.mem_cons_of_mem _ hx))
+        (fun x hx => hs x (List.mem_cons_of_mem _ hx)))
+      rw [Spec.doc_seek_of_mem (hs lo (by simp)) (hin lo (by simp))]
+      exact Nat.le_refl _
+
+theorem all2_V_VB {c : Nat} : ∀ {es : List σ} {les : List (List Nat)}, All2 VC es les →
+    (∀ lo ∈ les, Spec.doc lo ≤ c) → All2 (VB VC c) es les := by
+  intro es les h
+  induction h with
+  | nil => intro _; exact All2.nil
+  | cons h1 _ ih =>
+    intro hd
+    exact All2.cons ⟨h1, hd _ (by simp)⟩ (ih (fun lo hlo => hd lo (List.mem_cons_of_mem _ hlo)))
+
+theorem all_doc_seek {los : List (List Nat)} {c : Nat} (hs : ∀ lo ∈ los, Sorted lo) (hin : InAll los c) :
+    ∀ lo' ∈ los.map (Spec.seek c), Spec.doc lo' = c := by
+  intro lo' hlo'
+  obtain ⟨lo, hlo, rfl⟩ := List.mem_map.mp hlo'
+  exact Spec.doc_seek_of_mem (hs lo hlo) (hin lo hlo)
+
 /-- valid states -/
 def V (VC : σ → List Nat → Prop) (WC : σ → Nat → List Nat → Prop) (s : State σ) (l : List Nat) :
     Prop :=
   ∃ ll lr los, VC s.left ll ∧ CS VC WC (Spec.doc ll) s.right lr
     ∧ All2 (CS VC WC (Spec.doc ll)) s.others los
-    ∧ (ll ≠ [] → Spec.doc ll ∈ lr ∧ InAll los (Spec.doc ll)) ∧ l = Common ll lr los
+    ∧ (ll ≠ [] → Spec.doc ll ∈ lr ∧ InAll los (Spec.doc ll) ∧ VB VC (Spec.doc ll) s.right lr
+        ∧ All2 (VB VC (Spec.doc ll)) s.others los
+        ∧ Spec.doc lr = Spec.doc ll ∧ ∀ lo ∈ los, Spec.doc lo = Spec.doc ll) ∧ l = Common ll lr los
 
 theorem common_sorted {ll lr : List Nat} {los : List (List Nat)} (h : Sorted ll) :
     Sorted (Common ll lr los) := h.filter _
@@ -298,8 +332,10 @@ theorem advLoop_law (hC : Lawful C VC WC) :
             exact all2_found i1 i2 (all2_CS_sorted hC hO)
           · intro _
             rw [← hd']
-            refine ⟨(Spec.mem_seek hsr _).mpr ⟨hmR, Nat.le_refl _⟩, ?_⟩
-            exact (inall_map_seek (all2_CS_sorted hC hO) (Nat.le_refl _)).mpr i2
+            exact ⟨(Spec.mem_seek hsr _).mpr ⟨hmR, Nat.le_refl _⟩,
+              (inall_map_seek (all2_CS_sorted hC hO) (Nat.le_refl _)).mpr i2,
+              ⟨hVR, by rw [hdocR]; exact Nat.le_refl _⟩, all2_found_VB i1 i2 (all2_CS_sorted hC hO),
+              hdocR, all_doc_seek (all2_CS_sorted hC hO) i2⟩
           · apply Sorted.ext ((common_sorted hsl).seek cand) (common_sorted hsl')
             intro x
             rw [Spec.mem_seek (common_sorted hsl), mem_common, mem_common, Spec.mem_seek hsl, Spec.mem_seek hsr]
@@ -372,7 +408,7 @@ theorem core0 (hC : Lawful C VC WC) : Core0 (doc C) (advance C) (V VC WC) where
     exact common_sorted (hC.sorted hL)
   doc_eq := by
     rintro s l ⟨ll, lr, los, hL, _, _, ha, rfl⟩
-    rw [doc_common ha]
+    rw [doc_common (fun h => ⟨(ha h).1, (ha h).2.1⟩)]
     exact hC.doc_eq hL
   advance := by
     rintro s l ⟨ll, lr, los, hL, hR, hO, ha, rfl⟩
@@ -390,7 +426,7 @@ theorem core0 (hC : Lawful C VC WC) : Core0 (doc C) (advance C) (V VC WC) where
     have := advLoop_law hC FUEL (s := s) (cand := C.doc s.left + 1) hlen hL (by rw [hd]; omega)
       (hR.mono (by rw [hd]; omega)) (all2_CS_mono hO (by rw [hd]; omega))
     have e : Spec.seek (Spec.doc ll + 1) (Common ll lr los) = (Common ll lr los).tail := by
-      rw [← doc_common ha]; exact seek_succ_doc (common_sorted hsl)
+      rw [← doc_common (fun h => ⟨(ha h).1, (ha h).2.1⟩)]; exact seek_succ_doc (common_sorted hsl)
     unfold advance
     rw [hd] at this ⊢
     rw [e] at this
@@ -723,13 +759,20 @@ theorem seek_law (hC : Lawful C VC WC) {s : State σ} {t : Nat} {ll lr : List Na
           rw [ham]; simp only [Spec.doc, List.headD_cons]
           exact ((hsl'.seek cf).2 a (by rw [ham]; simp))
         rw [hdl]
-        refine ⟨?_, ?_⟩
+        refine ⟨?_, ?_, ⟨hRf, by rw [hdr]; exact Nat.le_refl _⟩, ?_, hdr, ?_⟩
         · have := Spec.doc_mem (l := Spec.seek cf lr) (by rw [hdr]; exact hlt)
           rw [hdr] at this; exact this
         · intro lo' hlo'
           obtain ⟨lo, hlo, rfl⟩ := List.mem_map.mp hlo'
           have := Spec.doc_mem (l := Spec.seek cf lo) (by rw [hdo lo hlo]; exact hlt)
           rw [hdo lo hlo] at this; exact this
+        · apply all2_V_VB hOf
+          intro lo' hlo'
+          obtain ⟨lo, hlo, rfl⟩ := List.mem_map.mp hlo'
+          rw [hdo lo hlo]; exact Nat.le_refl _
+        · intro lo' hlo'
+          obtain ⟨lo, hlo, rfl⟩ := List.mem_map.mp hlo'
+          exact hdo lo hlo
       · have hso : ∀ lo ∈ los, Sorted lo := fun lo hlo => hslist lo (by simp [hlo])
         apply Sorted.ext ((common_sorted hsl).seek t) (common_sorted (hsl'.seek cf))
         intro x
@@ -858,7 +901,9 @@ theorem sd_law (hC : Lawful C VC WC) {s : State σ} {t : Nat} {ll lr : List Nat}
         · rw [hdl']; exact all2_found i1 i2 hso
         · intro _
           rw [hdl']
-          exact ⟨(Spec.mem_seek hsr t).mpr ⟨hmR, Nat.le_refl _⟩, (inall_map_seek hso (Nat.le_refl _)).mpr i2⟩
+          exact ⟨(Spec.mem_seek hsr t).mpr ⟨hmR, Nat.le_refl _⟩, (inall_map_seek hso (Nat.le_refl _)).mpr i2,
+            ⟨hVR, by rw [Spec.doc_seek_of_mem hsr hmR]; exact Nat.le_refl _⟩, all2_found_VB i1 i2 hso,
+            Spec.doc_seek_of_mem hsr hmR, all_doc_seek hso i2⟩
       | some b =>
         rintro ⟨les', i1, i2, i3, i4, i5⟩
         have hleq : Spec.seek t (Common ll lr los) = Common (Spec.seek t ll) (Spec.seek t lr) les' := by
